@@ -16,7 +16,7 @@ RULE = (
     "assign' and 'save while outdated -> full update -> restore -> update'; fragile node functions that raise on a "
     "poison value (assignment failing in the middle of a sweep); user-supplied log_prob nodes; plus generated "
     "statistical models (transforms, degenerate MVN, weak variables with distributions) under a graph-evaluator "
-    "monitor. Also: values handed over in one re-used NumPy buffer refilled in place. non-trivial = history with a targeted update that left another node outdated and a "
+    "monitor. Also: values handed over in one re-used NumPy buffer refilled in place. Round 5: after a failed sweep, nodes that cannot be evaluated on the current inputs must be flagged outdated. non-trivial = history with a targeted update that left another node outdated and a "
     "restore of a state saved under a different dirty set; distinct by (program, history) hash"
 )
 REQUIRED = ["I6_coherent_after_failed_update", "G1_uptodate_equals_fromscratch", "G3_targeted_update_closure_uptodate", "I1_uptodate_equals_fromscratch", "I1_input_holds_assigned_value",
